@@ -137,7 +137,7 @@ var props = map[string]propCfg{
 		Phases: []phase{
 			{Engine: "family", Test: "TestC11", Inject: true, QuickChecks: 40000, ThoroughChecks: 40000},
 			{Engine: "family", Test: "TestC11", Inject: true, Fine: true, ThoroughOnly: true, ThoroughChecks: 30000},
-			{Engine: "race", Test: "TestC11Race", Race: true, Cpu: 4, QuickChecks: 1500, ThoroughChecks: 3000},
+			{Engine: "race", Test: "TestC11Race", Race: true, Cpu: 4, QuickChecks: 2500, ThoroughChecks: 3000},
 		},
 		Real:   commonReal,
 		Stub:   []string{"caller-thread scheduler (cooperative) in the deterministic half; the Go runtime scheduler in the race half (real, not controlled: see DESIGN.md §2.4)", "scheduling points injected at loops of a scratch copy", "hash function and math/rand seed"},
